@@ -346,6 +346,7 @@ func Main(name string, e Engine) {
 		Samples: []any{}, ImplVsModel: []Mismatch{}, ImplVsSpec: []Mismatch{}}
 	seen := map[string]bool{}
 	rng := NewRand(*seed)
+	nonRepro := 0
 
 	runOne := func(ops []string, from string, idx int) {
 		impl, model, spec := RunCase(e, d, ops)
@@ -368,14 +369,25 @@ func Main(name string, e Engine) {
 			}
 		}
 		if i := firstDiff(impl, model, false); i >= 0 && len(res.ImplVsModel) < *maxMism {
-			min := Shrink(ops[:i+1], func(c []string) bool {
-				a, b, _ := RunCase(e, d, c)
-				return firstDiff(a, b, false) >= 0
-			})
-			a, b, s := RunCase(e, d, min)
-			j := firstDiff(a, b, false)
-			res.ImplVsModel = append(res.ImplVsModel, Mismatch{Kind: "impl-vs-model", Case: idx, Index: j, Ops: min,
-				Op: min[j], Impl: a[j], Model: b[j], Spec: s[j], From: from})
+			// DESIGN 13: a disagreement is re-executed before it is reported; one that does not
+			// reproduce is a harness/infrastructure defect, counted but not reported as a violation
+			a0, b0, _ := RunCase(e, d, ops)
+			if firstDiff(a0, b0, false) < 0 {
+				nonRepro++
+			} else {
+				min := Shrink(ops[:i+1], func(c []string) bool {
+					a, b, _ := RunCase(e, d, c)
+					return firstDiff(a, b, false) >= 0
+				})
+				a, b, s := RunCase(e, d, min)
+				j := firstDiff(a, b, false)
+				if j < 0 { // the minimised case stopped reproducing: report the unminimised one
+					min, a, b, s = ops, a0, b0, spec
+					j = firstDiff(a, b, false)
+				}
+				res.ImplVsModel = append(res.ImplVsModel, Mismatch{Kind: "impl-vs-model", Case: idx, Index: j, Ops: min,
+					Op: min[j], Impl: a[j], Model: b[j], Spec: s[j], From: from})
+			}
 		}
 		if i := firstDiff(impl, spec, true); i >= 0 && len(res.ImplVsSpec) < *maxMism {
 			if impl[i] == model[i] {
@@ -390,6 +402,10 @@ func Main(name string, e Engine) {
 				})
 				a, b, s := RunCase(e, d, min)
 				j := firstDiff(a, s, true)
+				if j < 0 {
+					min, a, b, s = ops, impl, model, spec
+					j = i
+				}
 				res.ImplVsSpec = append(res.ImplVsSpec, Mismatch{Kind: "impl-vs-spec", Case: idx, Index: j, Ops: min,
 					Op: min[j], Impl: a[j], Model: b[j], Spec: s[j], From: from})
 			}
@@ -409,6 +425,7 @@ func Main(name string, e Engine) {
 		runOne(ops, "gen", i)
 	}
 	res.WallS = time.Since(t0).Seconds()
+	res.Extra["nonreproducing_disagreements"] = nonRepro
 	if x, ok := e.(interface{ Extra() map[string]any }); ok {
 		for k, v := range x.Extra() {
 			res.Extra[k] = v
